@@ -3,26 +3,30 @@
    Calls.tla, with a marking, fault-injecting extend function) and what C06 / C07 say they must compute.   *)
 EXTENDS Calls
 
+\* the declarative side looks through named non-struct types
+U(t) == IF t.k = "nn" THEN t.u ELSE t
+DF(shape, id) == LET fs == FieldsOf(shape, id) IN [i \in DOMAIN fs |-> [n |-> fs[i].n, t |-> U(fs[i].t)]]
 Nil == [k |-> "nil"]
 Bz == [k |-> "b", tok |-> "z"]
 Ba == [k |-> "b", tok |-> "a"]
 RECURSIVE ValsN(_,_,_)
 ValsN(prog, t, d) ==
   CASE t.k \in {"basic", "meth"} -> {Bz, Ba}
-    [] t.k = "ptr" -> {Nil} \cup (IF d = 0 THEN {} ELSE {[k |-> "p", e |-> v] : v \in ValsN(prog, t.e, d - 1)})
+    [] t.k = "ptr" -> {Nil} \cup (IF t.e.k = "basic" THEN {[k |-> "p", e |-> v] : v \in {Bz, Ba}}               \* pointers to basic values at any depth
+                                  ELSE IF d = 0 THEN {} ELSE {[k |-> "p", e |-> v] : v \in ValsN(prog, t.e, d - 1)})
     [] t.k = "slice" -> {Nil, [k |-> "s", es |-> <<>>]} \cup
                          (IF d = 0 THEN {} ELSE {[k |-> "s", es |-> <<v>>] : v \in ValsN(prog, t.e, d - 1)})
     [] t.k = "map" -> {Nil, [k |-> "m", kv |-> {}]} \cup
                        (IF d = 0 THEN {} ELSE {[k |-> "m", kv |-> {<<kk, v>>}] : kk \in ValsN(prog, t.key, 0), v \in ValsN(prog, t.e, d - 1)})
     [] t.k = "named" ->
-         LET fs == FieldsOf(prog.shape, t.id) IN
+         LET fs == DF(prog.shape, t.id) IN
          IF Len(fs) = 1 THEN {[k |-> "st", fs |-> <<v>>] : v \in ValsN(prog, fs[1].t, d)}
          ELSE {[k |-> "st", fs |-> <<v, w>>] : v \in ValsN(prog, fs[1].t, d), w \in ValsN(prog, fs[2].t, d)}
 
 \* the zero value of a type
 RECURSIVE ZeroT(_,_)
 ZeroT(prog, t) == IF t.k = "basic" THEN Bz
-                  ELSE IF t.k = "named" THEN LET fs == FieldsOf(prog.shape, t.id) IN [k |-> "st", fs |-> [i \in DOMAIN fs |-> ZeroT(prog, fs[i].t)]]
+                  ELSE IF t.k = "named" THEN LET fs == DF(prog.shape, t.id) IN [k |-> "st", fs |-> [i \in DOMAIN fs |-> ZeroT(prog, fs[i].t)]]
                   ELSE Nil
 \* the element type on the target side of a pointer source (the target need not be a pointer: SourcePointer)
 TE(t) == IF t.k = "ptr" THEN t.e ELSE t
@@ -43,6 +47,7 @@ RECURSIVE Eval(_,_,_,_,_,_), EvalFields(_,_,_,_,_,_,_,_,_), EvalElems(_,_,_,_,_,
 Eval(prog, ms, ir, v, faults, path) ==
   CASE ir.k = "copy" -> Ok(v)
     [] ir.k = "ext" -> IF ir.fn = "C" THEN Ok(MarkC(v)) ELSE IF ir.retErr /\ v.tok \in faults THEN Er(v.tok, path) ELSE Ok(Mark(prog, v))
+    [] ir.k = "cast" -> Eval(prog, ms, ir.x, v, faults, path)
     [] ir.k = "mth" -> IF ir.retErr /\ v.tok \in faults THEN Er(v.tok, path) ELSE Ok(v)
     [] ir.k = "call" -> Eval(prog, ms, ms[ir.callee].body, v, faults, path)
     [] ir.k = "valptr" -> LET r == Eval(prog, ms, ir.x, v, faults, path) IN IF r.err # "" THEN r ELSE Ok([k |-> "p", e |-> r.v])
@@ -74,7 +79,7 @@ RECURSIVE ReachIds(_,_,_)
 ReachIds(prog, todo, done) ==
   IF todo = {} THEN done
   ELSE LET id == CHOOSE x \in todo : TRUE
-           fs == FieldsOf(prog.shape, id)
+           fs == DF(prog.shape, id)
            next == {IF fs[i].t.k = "named" THEN fs[i].t.id ELSE IF fs[i].t.k \in {"ptr", "slice", "map"} /\ fs[i].t.e.k = "named" THEN fs[i].t.e.id ELSE id : i \in DOMAIN fs}
        IN ReachIds(prog, (todo \cup next) \ (done \cup {id}), done \cup {id})
 \* does the pair (s, t) need the fallible / context-taking extend function E somewhere (not descending into named types)?
@@ -84,12 +89,16 @@ NeedsE(s, t) == IF (s = INT /\ t = STR) \/ s.k = "meth" THEN TRUE
                 ELSE IF s.k = "slice" THEN NeedsE(s.e, t.e)
                 ELSE IF s.k = "map" THEN NeedsE(s.key, t.key) \/ NeedsE(s.e, t.e)
                 ELSE FALSE
-UsesExt(prog) == \E id \in ReachIds(prog, {"A"}, {}) : \E i \in DOMAIN FieldsOf(prog.shape, id) : NeedsE(FieldsOf(prog.shape, id)[i].t, FieldsOf(prog.shape, id \o "2")[i].t)
+UsesExt(prog) == \E id \in ReachIds(prog, {"A"}, {}) : \E i \in DOMAIN DF(prog.shape, id) : NeedsE(DF(prog.shape, id)[i].t, DF(prog.shape, id \o "2")[i].t)
 \* generation must succeed unless an error would be dropped or a required context is unavailable
 \* a declared method ConvB(source B, ctx Ctx) B2 is the conversion of every B -> B2 position; where no context value can be
 \* obtained (the root method has no such parameter) generation must fail rather than fall back to a generated conversion
 DeclCtxNeeded(prog) == prog.declB = "ctx" /\ "B" \in ReachIds(prog, {"A"}, {}) /\ ~prog.rootCtx
-GenOK(prog) == ~(UsesExt(prog) /\ prog.extErr /\ ~prog.rootErr) /\ ~(UsesExt(prog) /\ prog.extCtx /\ ~prog.rootCtx) /\ ~DeclCtxNeeded(prog)
+\* useUnderlyingTypeMethods: NI -> string needs the setting (then E on int applies); LP -> []int needs the setting and the declared
+\* method ConvL (no other method may turn *int into int)
+KindsA(prog) == {prog.shape.A[i] : i \in DOMAIN prog.shape.A}
+UnderOK(prog) == ("nI2s" \in KindsA(prog) => prog.under) /\ ("nL" \in KindsA(prog) => prog.under /\ prog.declL)
+GenOK(prog) == UnderOK(prog) /\ ~(UsesExt(prog) /\ prog.extErr /\ ~prog.rootErr) /\ ~(UsesExt(prog) /\ prog.extCtx /\ ~prog.rootCtx) /\ ~DeclCtxNeeded(prog)
 
 RECURSIVE SMapN(_,_,_,_), Reached(_,_,_,_,_)
 \* C06: every int -> string position, at any depth, carries E's result (with the context passed unchanged)
@@ -101,7 +110,7 @@ SMapN(prog, s, t, v) ==
   ELSE IF s.k = "ptr" /\ t.k # "ptr" THEN (IF v = Nil THEN ZeroT(prog, t) ELSE SMapN(prog, s.e, t, v.e))
   ELSE IF s.k = "ptr" THEN (IF v = Nil THEN Nil ELSE [k |-> "p", e |-> SMapN(prog, s.e, t.e, v.e)])
   ELSE IF s.k = "slice" THEN (IF v = Nil THEN Nil ELSE [k |-> "s", es |-> [i \in DOMAIN v.es |-> SMapN(prog, s.e, t.e, v.es[i])]])
-  ELSE LET sf == FieldsOf(prog.shape, s.id) tf == FieldsOf(prog.shape, t.id) IN
+  ELSE LET sf == DF(prog.shape, s.id) tf == DF(prog.shape, t.id) IN
        [k |-> "st", fs |-> [i \in DOMAIN tf |-> SMapN(prog, sf[i].t, tf[i].t, v.fs[i])]]
 \* C07: the injected faults a conversion of v must hit
 Reached(prog, s, t, v, faults) ==
@@ -110,7 +119,7 @@ Reached(prog, s, t, v, faults) ==
   ELSE IF s.k = "map" THEN (IF v = Nil THEN {} ELSE UNION {Reached(prog, s.key, t.key, e[1], faults) \cup Reached(prog, s.e, t.e, e[2], faults) : e \in v.kv})
   ELSE IF s.k = "ptr" THEN (IF v = Nil THEN {} ELSE Reached(prog, s.e, TE(t), v.e, faults))
   ELSE IF s.k = "slice" THEN (IF v = Nil THEN {} ELSE UNION {Reached(prog, s.e, t.e, v.es[i], faults) : i \in DOMAIN v.es})
-  ELSE LET sf == FieldsOf(prog.shape, s.id) tf == FieldsOf(prog.shape, t.id) IN
+  ELSE LET sf == DF(prog.shape, s.id) tf == DF(prog.shape, t.id) IN
        UNION {Reached(prog, sf[i].t, tf[i].t, v.fs[i], faults) : i \in DOMAIN tf}
 \* C07, wrapErrorsUsing: the location of the first failing position in conversion order (fields in target order, elements
 \* in order, map key before map value): target field names, slice indices, source map keys, outermost first.  <<"-">> = none
@@ -125,7 +134,7 @@ FaultPath(prog, s, t, v, faults, path) ==
        (IF v = Nil \/ v.kv = {} THEN NoPath
         ELSE LET e == CHOOSE x \in v.kv : TRUE pk == Append(path, PKey(e[1])) fk == FaultPath(prog, s.key, t.key, e[1], faults, pk) IN
              IF fk # NoPath THEN fk ELSE FaultPath(prog, s.e, t.e, e[2], faults, pk))
-  ELSE FaultFields(prog, FieldsOf(prog.shape, s.id), FieldsOf(prog.shape, t.id), v, 1, faults, path)
+  ELSE FaultFields(prog, DF(prog.shape, s.id), DF(prog.shape, t.id), v, 1, faults, path)
 FaultFields(prog, sf, tf, v, i, faults, path) ==
   IF i > Len(tf) THEN NoPath
   ELSE LET f == FaultPath(prog, sf[i].t, tf[i].t, v.fs[i], faults, Append(path, PField(tf[i].n))) IN
